@@ -16,6 +16,10 @@ pub fn c13_docs() -> Vec<InitialDoc> {
         InitialDoc { text: DOC_DOCTYPE, foreign: None, expanded: false },
         InitialDoc { text: "<r x=\"1\" y=\"2\"><a z=\"3\"/></r>", foreign: Some("<f w=\"4\"/>"), expanded: false },
         InitialDoc { text: "<r>t<![CDATA[c]]>u</r>", foreign: None, expanded: false },
+        // merged-text view (what xq / xe work on): no reference tree, so only "no panic" and "a failed
+        // call changes nothing" are judged here
+        InitialDoc { text: "<r>t<![CDATA[c]]>&amp;<a/>u</r>", foreign: None, expanded: true },
+        InitialDoc { text: DOC_MIXED, foreign: None, expanded: true },
     ]
 }
 
@@ -56,8 +60,8 @@ impl Check for C13C {
     fn meta(&self) -> Meta {
         Meta {
             rule: "the same explicit-state search as C12, with the reference DOM Level 1 tree (mc/src/model/dom.rs) applied in lock-step: for every (state, call) the model yields the set of acceptable successor trees or the set of exception classes DOM Level 1 allows (any member passes; where the Recommendation is silent both an unchanged success and any error pass). Checked per transition: no panic; outcome in the allowed set; on success the observed tree (all handles: kind, name, value, parent, child list, attribute map, owner) and the returned node equal an acceptable successor; on failure the complete observation (tree, order-key ranks, serialization) is identical to the one before the call; a node of a structurally equal but distinct document is refused. States where model and implementation disagree are reported and not expanded further. Names from {n, x, a:b, '', 1a, 'a b', xml, a:b:c}, values from {v, '', 'a b', x<y, a&b}.",
-            bounds_quick: "7 initial documents (3 with a foreign document), history depth 2, at most 1 created node per history",
-            bounds_thorough: "7 initial documents, history depth 3, at most 1 created node per history",
+            bounds_quick: "7 initial documents (3 with a foreign document) + 2 in the merged-text view (panic and atomicity monitors only), history depth 2, at most 1 created node per history",
+            bounds_thorough: "7 + 2 initial documents, history depth 3, at most 1 created node per history",
             assumptions: &[
                 "implementation errors are mapped to DOM exception classes leniently (Info(InvalidHierarchy|InvalidType) = hierarchy request, Info(OufOfIndex) = not found, Info(InvalidData)|Parse = invalid character)",
                 "methods the Rust API does not offer for a node kind (NodeMut on DocumentType, EntityReference, DocumentFragment) are not exercised",
